@@ -234,6 +234,12 @@ def slice_function(root, spec):
         fired['R-trait.numeric_limits'] = fired.get('R-trait.numeric_limits', 0) + 1
         return NL[key]
     body = re.sub(r'std::numeric_limits<\s*(\w+)\s*>::(\w+)\(\)', nl, body)
+    # R-std: overloaded / templated std:: helpers -> type-generic C macros of verif.h (applied after the per-function rewrites, so a listed
+    # rewrite still wins).  std::abs dispatches on the argument type exactly as the C11 _Generic selection in STD_ABS does.
+    for cxx, c in (('std::abs', 'STD_ABS'), ('std::min', 'STD_MIN'), ('std::max', 'STD_MAX'), ('std::swap', 'STD_SWAP'), ('std::floor', 'floor'), ('std::ceil', 'ceil'),
+                   ('std::sqrt', 'sqrt'), ('std::memcpy', 'memcpy'), ('std::memset', 'memset'), ('std::isnan', 'isnan'), ('std::isinf', 'isinf')):
+        body, k = re.subn(r'\b%s\s*(?:<[^<>()]*>)?\s*\(' % re.escape(cxx), c + '(', body)
+        if k: fired['R-std:' + cxx] = k
     # R-cast
     body = rewrite_casts(body, fired)
     # R-kw
